@@ -130,7 +130,11 @@ fn iterate_with_lines<'a>(
         {
             member.original_startline
         } else {
-            member.original_startline + frame.line - member.startline
+            // `frame.line >= member.startline` here; the original line numbers come
+            // straight from the mapping file and may be arbitrarily large.
+            member
+                .original_startline
+                .saturating_add(frame.line - member.startline)
         };
         let file = if let Some(file_name) = member.original_file {
             if file_name == "R8$$SyntheticClass" {
